@@ -162,6 +162,11 @@ func genC18(seed int64, tier string) []caseOut {
 		}
 		did := "did:ns:EiSuffix"
 		published := r.Intn(2) == 0
+		if c := (i / 5) % 8; i%5 == 0 { // the epoch and its neighbours as created / updated time, published and not (independent of the seed)
+			rm.CreatedTime = []uint64{0, 0, 1, 86400}[c%4]
+			rm.UpdatedTime = []uint64{0, 1, 0, 0}[c%4]
+			published = c < 4
+		}
 		info := protocol.TransformationInfo{document.IDProperty: did, document.PublishedProperty: published}
 		infoCoq := fmt.Sprintf("(Build_tinfo (Some %s) (Some %s) ", cStr(did), cBool(published))
 		if r.Intn(2) == 0 {
